@@ -47,9 +47,12 @@ type fDoc struct {
 	Ops     []fOp
 	Text    string
 	File    string
+	Arrays  [][2]string // OpenAPI 2: top-level array definitions (name, item schema or primitive type)
 }
 
-var c11PropNames = []string{"name", "kind", "owner-id", "age", "a.b", "type", "date", "x y", "weight", "if", "set", "née", "for", "count_1", "Zed", "int", "string", "a:b", "q&a", "p+q"}
+var c11PropNames = []string{"name", "kind", "owner-id", "age", "a.b", "type", "date", "x y", "weight", "if", "set", "née", "for", "count_1", "Zed", "int", "string", "a:b", "q&a", "p+q",
+	// the same special character more than once in a name
+	"ship.to.address", "x:y:z", "p+q+r", "q&a&b", "a.b:c.d"}
 
 var c11Kinds = []struct{ kind, oaType, oaFormat, sysl string }{
 	{"string", "string", "", "STRING"}, {"int", "integer", "", "INT"}, {"int32", "integer", "int32", "INT"}, {"int64", "integer", "int64", "INT"},
@@ -291,6 +294,13 @@ func renderOpenAPI(d *fDoc, v3 bool) {
 			fmt.Fprintf(&b, "%s    %s: %s\n", ind, yq(p.Name), oaProp(p, refPrefix))
 		}
 	}
+	for _, ar := range d.Arrays {
+		if ar[1] == "string" {
+			fmt.Fprintf(&b, "%s%s: {type: array, items: {type: string}}\n", ind, yq(ar[0]))
+		} else {
+			fmt.Fprintf(&b, "%s%s: {type: array, items: {$ref: %s}}\n", ind, yq(ar[0]), yq(refPrefix+ar[1]))
+		}
+	}
 	d.Text = b.String()
 }
 
@@ -375,6 +385,14 @@ func genFDoc(r *Rand, format string) *fDoc {
 	switch format {
 	case "openapi2", "openapi3":
 		d.Schemas = genSchemas(r, false)
+		if format == "openapi2" && r.Chance(1, 3) {
+			// named arrays, two of them over the same item type
+			item := d.Schemas[r.Intn(len(d.Schemas))].Name
+			d.Arrays = [][2]string{{"ListA", item}, {"ListB", item}}
+			if r.Bool() {
+				d.Arrays = append(d.Arrays, [2]string{"Names", "string"}, [2]string{"Labels", "string"})
+			}
+		}
 		d.Ops = genOps(r, d.Schemas)
 		d.PathLevel = r.Bool()
 		d.File = "spec.yaml"
@@ -457,7 +475,7 @@ func runC11(res *Result, tier string, rnd *Rand, replay string) {
 	logger.SetLevel(logrus.PanicLevel)
 	counts := map[string]int{"openapi2": 60, "xsd": 40, "openapi3": 6, "sql": 6}
 	if tier == "thorough" {
-		counts = map[string]int{"openapi2": 1500, "xsd": 1000, "openapi3": 60, "sql": 60}
+		counts = map[string]int{"openapi2": 400, "xsd": 300, "openapi3": 30, "sql": 30}
 	}
 	for _, format := range []string{"openapi2", "xsd", "openapi3", "sql"} {
 		for i := 0; i < counts[format]; i++ {
@@ -542,6 +560,11 @@ func c11Census(res *Result, in map[string]any, d *fDoc, m *sysl.Module, text str
 			}
 		}
 		return out
+	}
+	for _, ar := range d.Arrays {
+		if findType(ar[0]) == nil {
+			viol("type-missing", "the array definition "+ar[0]+" has no type")
+		}
 	}
 	for _, s := range d.Schemas {
 		t := findType(s.Name)
